@@ -346,7 +346,11 @@ def dro_history(draw):
             'order': draw(st.sampled_from(['supp_exp_prob', 'prob_exp_supp', 'exp_supp_prob'])),
             'extra_fset': draw(st.booleans()), 'mid': draw(st.sampled_from(['solve', 'primal', 'dual', 'solve+solve'])),
             # parts of the ambiguity set that are declared differently first and (re)declared after the first formulation
-            'late_amb': sorted(draw(st.sets(st.sampled_from(['supp', 'exp', 'prob']), max_size=2)))}
+            'late_amb': sorted(draw(st.sets(st.sampled_from(['supp', 'exp', 'prob']), max_size=2))),
+            # a decision array declared (and constrained) only after the first formulation
+            'late_var': {'k': draw(st.integers(1, 2)), 'g': D._vec(draw, c['nx']), 'c': D._vec(draw, c['nz'] + c['nu']),
+                         'slack': draw(st.sampled_from([0.0, 0.5, 1.0, 3.0])),
+                         'adapt': draw(st.sampled_from(['none', 'event', 'affine']))} if draw(st.booleans()) else None}
 
 
 @st.composite
@@ -521,6 +525,31 @@ def check_dro(case):
         h['declare_amb'](h['fset'], c, parts=[p_ for p_ in la if p_ != 'exp'])
         if 'exp' in la:
             h['declare_amb'](h['fset'], c, parts=['exp'], exps=c['exps'][-1:])
+    lv = case.get('late_var')
+
+    def add_late_var(mm, hh):
+        # w in [-1, 1]; g.x + sum(w) + c.w_rand >= const, feasible at the witness with w = 1 (so w is needed at its bound)
+        k = lv['k']
+        wv = mm.dvar(k)
+        lab = hh['labels']
+        if lv['adapt'] in ('event', 'affine') and c['S'] > 1:
+            wv.adapt(lab[c['S'] - 1])
+        if lv['adapt'] == 'affine':
+            wv.adapt(hh['z'])
+        g = np.array(lv['g'])
+        cc_ = np.array(lv['c'], dtype=float)
+        worst = min(-D.support_max(sp_, -cc_, fallback=0.0) for sp_ in c['supports']) if np.any(cc_) else 0.0
+        const = float(g @ np.array(c['witness']['x']) + k + worst - lv['slack'])
+        e_ = g @ hh['x'] + wv.sum()
+        if np.any(cc_[:nz]):
+            e_ = e_ + cc_[:nz] @ hh['z']
+        if nu and cc_[nz]:
+            e_ = e_ + float(cc_[nz]) * hh['u']
+        mm.st(wv <= 1, wv >= -1)
+        mm.st(e_ >= const)
+    if lv:
+        labels.append('late_var:' + lv['adapt'])
+        add_late_var(m, h)
     for row, late in zip(c['cons'], case['late']):
         if not late:
             continue
@@ -533,8 +562,13 @@ def check_dro(case):
         if nu and cc[nz]:
             e = e + float(cc[nz]) * u
         m.st(e <= 0 if row['sense'] == 'le' else e >= 0)
-    v1 = D.solve(m, solver)
+    try:
+        v1 = D.solve(m, solver)
+    except Exception as ex:
+        return Outcome.fail('dro:resolve_raises', 're-solve after the history raises %r (the from-scratch build is solved below)' % (ex,), labels)
     m2, h2 = D.build(c)
+    if lv:
+        add_late_var(m2, h2)
     v2 = D.solve(m2, solver)
     if v1 is None or v2 is None:
         if (v1 is None) != (v2 is None) and kind == 'lp':
@@ -542,7 +576,7 @@ def check_dro(case):
         return Outcome.skip('not_optimal', labels)
     if abs(v1 - v2) > 1e-6 * (1 + abs(v2)):
         return Outcome.fail('dro:history_vs_scratch', 're-solve after adding constraints gives %.9g, the from-scratch model gives %.9g' % (v1, v2), labels)
-    return Outcome.ok(any(case['late']) or bool(la), labels + (['late_rows'] if any(case['late']) else []))
+    return Outcome.ok(any(case['late']) or bool(la) or bool(lv), labels + (['late_rows'] if any(case['late']) else []))
 
 
 PROP = C09()
